@@ -784,6 +784,121 @@ def run_mins(chk, seed):
             chk.traces_validated += 1
 
 
+
+# ------------------------------------------------------------------------------------------------ start-vector scale
+
+# scale decade -> the power of two next to it (scaling by a power of two is exact in binary floating point, so with the
+# plain 2-norm normalisation q_0 = v/|v| the whole run is bit-for-bit independent of the factor unless |v|^2 under/overflows)
+SCALES = {"1e-14": 2.0 ** -47, "1e-20": 2.0 ** -66, "1e-30": 2.0 ** -100, "1e+8": 2.0 ** 27}
+HAZARD_UFL = "hazard=f32-start-norm-underflow"
+
+
+def scale_decades(dt):
+    # float32: |v|^2 must be representable (1e-28 and 1e+16 x n are; 1e-40 is denormal, 1e-60 underflows: separate, tagged cells)
+    return ("1e-14", "1e-20", "1e-30", "1e+8") if dt == "f64" else ("1e-14", "1e+8", "1e-30")
+
+
+def run_scale(chk, seed, corr_lines, coupled_lines):
+    """SUPPLIED start vectors of very small / very large norm: Q and T do not depend on a positive factor of a start vector
+    (`lanczos_start_scale_invariant`, `lanczos_multi_start_scale_invariant`), q_0 = v/|v| to working precision, all
+    invariants hold, the healthy columns of a call with ONE tiny column are untouched (shared count included), and
+    root_inv_decomposition(initial_vectors = scaled probes) still reproduces the inverse at full budget."""
+    from linear_operator import settings
+    from linear_operator.operators import DenseLinearOperator
+    from linear_operator.utils.lanczos import lanczos_tridiag
+    sizes = (4, 6) if chk.tier == "quick" else (3, 4, 6, 8)
+    for dt in ("f64", "f32"):
+        dtype = DT[dt]
+        eq_tol = 1e-10 if dt == "f64" else 1e-4
+        for n in sizes:
+            for batch in ((), (2,)):
+                nb = 2 if batch else 1
+                for cols_kind, p in (("one", 1), ("many-all", 3), ("many-one-tiny", 3)):
+                    for mk in ("n", "half"):
+                        mi = budgets(n)[mk]
+                        for dec in scale_decades(dt):
+                            sc = SCALES[dec]
+                            hz = f"/{HAZARD_UFL}" if (dt == "f32" and dec == "1e-30") else ""
+                            if hz and not (n == sizes[0] and mk == "n"):
+                                continue  # a few tagged cells are enough for the known underflow
+                            cid = (f"C09/scale/lanczos/n={n}/b={'x'.join(map(str, batch)) or '-'}/cols={cols_kind}/mi={mk}/s={dec}/{dt}" + hz)
+                            g = gen_for(seed, cid.replace(f"/s={dec}", ""))  # the same A, v for every decade
+                            A64, _ = make_A(g, "fullrank", n, batch)
+                            A = A64.to(dtype)
+                            v = torch.randn(*batch, n, p, generator=g, dtype=F64).to(dtype)
+                            tiny = int(torch.randint(0, p, (1,), generator=g))
+                            fac = torch.ones(p, dtype=dtype)
+                            if cols_kind == "many-one-tiny":
+                                fac[tiny] = sc
+                            else:
+                                fac[:] = sc
+                            vs = v * fac
+                            payload = {"kind": "scale", "seed": seed, "cell": cid}
+                            chk.case(f"{cid} A0={A.reshape(-1)[:3].tolist()}")
+                            chk.count(f"scale={dec}/{dt}")
+                            try:
+                                q, t = lanczos_tridiag(lambda x: A @ x, mi, dtype=dtype, device=A.device, matrix_shape=A.shape[-2:],
+                                                       batch_shape=A.shape[:-2], init_vecs=vs)
+                                q0, t0 = lanczos_tridiag(lambda x: A @ x, mi, dtype=dtype, device=A.device, matrix_shape=A.shape[-2:],
+                                                         batch_shape=A.shape[:-2], init_vecs=v)
+                            except Exception as e:  # noqa: BLE001
+                                chk.violation(cid, f"raised {type(e).__name__}: {str(e)[:100]}", payload)
+                                continue
+                            fails, cols = invariants(A, vs, q, t, mi, dtype, "fullrank", n, False)
+                            if not fails:
+                                if q.shape != q0.shape:
+                                    fails.append(f"count {q.shape[-1]} with the scaled start vector(s), {q0.shape[-1]} with the unscaled ones")
+                                else:
+                                    e = max((q - q0).abs().max().item(), (t - t0).abs().max().item())
+                                    if not e <= eq_tol:
+                                        fails.append(f"Q/T change by {e:.2e} when the start vector(s) are multiplied by {dec} (factor(s) {fac.tolist()})")
+                            if fails:
+                                chk.violation(cid, f"n={n} max_iter={mi} batch={batch} start vectors x {fac.tolist()}: " + "; ".join(fails[:3]), payload)
+                                continue
+                            if dt != "f64":
+                                continue
+                            # the Float model on the SCALED vectors (exact bit patterns)
+                            if p * nb == 1:
+                                c, b, Qc, Tc = cols[0]
+                                corr_lines.append((cid, "ok", Qc, Tc, f"lz {n} {mi} d {fmat(A64)} {fvec(vs.to(F64)[:, 0])}", dict(payload, dtype="f64")))
+                            else:
+                                m = q.shape[-1]
+                                ccols = [(c, b, Qc, Tc, m) for (c, b, Qc, Tc) in cols]
+                                coupled_lines.append((cid, "generic", m, ccols, coupled_line(A64, vs.to(F64), mi, None), payload, None))
+                # ---- end to end: inverse root from scaled probes, full budget
+                for probes, p in (("one", 1), ("many-one-tiny", 3)):
+                    for dec in scale_decades(dt):
+                        if dt == "f32" and dec == "1e-30":
+                            continue
+                        sc = SCALES[dec]
+                        cid = f"C09/scale/root_inv/n={n}/b={'x'.join(map(str, batch)) or '-'}/probes={probes}/s={dec}/{dt}"
+                        g = gen_for(seed, cid.replace(f"/s={dec}", ""))
+                        A64, _ = make_A(g, "fullrank", n, batch)
+                        A = A64.to(dtype)
+                        v = torch.randn(*batch, n, p, generator=g, dtype=F64).to(dtype)
+                        tv = torch.randn(*batch, n, 2, generator=g, dtype=F64).to(dtype)
+                        fac = torch.ones(p, dtype=dtype)
+                        fac[int(torch.randint(0, p, (1,), generator=g))] = sc
+                        payload = {"kind": "scale", "seed": seed, "cell": cid}
+                        chk.case(f"{cid} A0={A.reshape(-1)[:3].tolist()}")
+                        chk.count(f"scale_root_inv={dec}/{dt}")
+                        try:
+                            with settings.max_root_decomposition_size(n):
+                                R = DenseLinearOperator(A).root_inv_decomposition(initial_vectors=v * fac, test_vectors=tv, method="lanczos").root.to_dense()
+                                R0 = DenseLinearOperator(A).root_inv_decomposition(initial_vectors=v, test_vectors=tv, method="lanczos").root.to_dense()
+                        except Exception as e:  # noqa: BLE001
+                            chk.violation(cid, f"raised {type(e).__name__}: {str(e)[:100]}", payload)
+                            continue
+                        Rd = R.to(F64)
+                        e = (Rd @ Rd.mT @ A64 - torch.eye(n, dtype=F64)).abs().max().item()
+                        e0 = ((Rd @ Rd.mT) - (R0.to(F64) @ R0.to(F64).mT)).abs().max().item()
+                        lim = 1e-4 if dt == "f64" else 2e-2
+                        if not e < lim:
+                            chk.violation(cid, f"(R Rt) A - I = {e:.2e} with initial_vectors x {fac.tolist()} (full budget)", payload)
+                        elif not e0 < lim * 1e-2:
+                            chk.violation(cid, f"R Rt changes by {e0:.2e} when one initial vector is multiplied by {dec}", payload)
+
+
 # ------------------------------------------------------------------------------------------------ layer C
 
 class Tap:
@@ -1262,6 +1377,7 @@ def run(chk):
     run_mixed(chk, seed, corr_lines)
     coupled_lines = []
     run_coupled(chk, seed, coupled_lines)
+    run_scale(chk, seed, corr_lines, coupled_lines)
     run_ops(chk, seed, post_lines)
     run_scaled(chk, seed)
     run_slq(chk, seed)
@@ -1307,6 +1423,11 @@ def replay(chk, payload):
     elif p["kind"] == "coupled":
         cl = []
         run_coupled(chk, seed, cl)
+        check_coupled(chk, cl)
+    elif p["kind"] == "scale":
+        cl = []
+        run_scale(chk, seed, corr, cl)
+        check_corr(chk, corr)
         check_coupled(chk, cl)
     elif p["kind"] == "mins":
         run_mins(chk, seed)
